@@ -51,6 +51,11 @@ def noise_floor(P, area):
     return 2 * 2.2e-16 * per / max(float(area), 1e-300)
 
 
+MODEL_MIN_DIAM = 0.01    # degrees: below this the 2^-100 fixed-point model rounds the squared Jacobian
+#                          (~ area^2) too coarsely to be a 1e-10 reference; sub-km faces are judged by the
+#                          exact oracle only
+
+
 def class_of(diam_deg):
     for lim, tol in CLASSES:
         if diam_deg <= lim:
@@ -1059,6 +1064,8 @@ def run_models(ck, face_jobs, grid_jobs, st, budget_pts, dim3=True):
         c = cost(rule, ntri)
         if used + 2 * c > 0.4 * budget_pts:
             continue
+        if min(diameter_deg([tuple(case["nodes"][i]) for i in r if i != FILL]) for r in case["table"]) < MODEL_MIN_DIAM:
+            continue
         used += 2 * c
         xyz = list(zip(g.node_x.values.tolist(), g.node_y.values.tolist(), g.node_z.values.tolist()))
         glines.append(model_line_grid(LL, xyz, case["table"], rule[0], rule[1], True))
@@ -1077,6 +1084,8 @@ def run_models(ck, face_jobs, grid_jobs, st, budget_pts, dim3=True):
                 zdrop_bad.append({"what": "source says dim = 2 on the Cartesian path, but the result is not the "
                                           "z-dropped dataflow", "case": case, "rule": rule})
     for case, P, LL, areas in face_jobs:
+        if diameter_deg(P) < MODEL_MIN_DIAM:
+            continue
         for rule in [("triangular", 4), rng.choice(RULES)]:
             c = cost(rule, len(P) - 2)
             if used + 2 * c > budget_pts:
@@ -1274,7 +1283,7 @@ def main(ck):
     })
     ck.trusted += ["harness/translators/c05_tables.py (fail-closed ast translator of the literal tables and defaults)",
                    "mpmath 50-digit oracle for the spherical excess and for lon/lat -> xyz",
-                   "fixed-point (2^-100, floor) instance of the model stands for the real-number instance (rounding not proved)",
+                   "fixed-point (2^-100, floor) instance of the model stands for the real-number instance (rounding not proved); it is compared with the implementation on faces >= 0.01 degrees across only (sub-km faces: exact oracle only)",
                    "numpy/numba float64 arithmetic of the implementation (deviation bounded by the stated tolerances)"]
     ck.assumptions += ["faces are convex with 3..8 corners and edges < 90 degrees (the property's quantifier); non-convex "
                        "faces of generated tilings are only checked for sign, cache and correspondence",
